@@ -80,7 +80,7 @@ def check(hyps: list, goal, timeout_ms: int, use_lemmas: bool = True, seed: int 
     # all solvers of a context, and a timer that fires late leaves later, unrelated queries "canceled" for good.  The
     # wall-clock timeout stays as a distant safety net only.
     s.set("rlimit", int(timeout_ms) * RLIMIT_PER_MS)
-    s.set("timeout", max(8 * int(timeout_ms), 60000))
+    s.set("timeout", max(40 * int(timeout_ms), 300000))  # (a verdict must not depend on how busy the machine is)
     s.set("random_seed", seed)
     for a in (base_axioms() if use_lemmas else spec.axioms()):
         s.add(a)
